@@ -35,6 +35,31 @@ pub fn encode_all(src: &str) -> Option<String> {
     Some(out)
 }
 
+/// The entry points of lowering agree: `lower(program, name)` and `lower_tx(tx)`, each called twice on one thread in
+/// either order, give the same bytes for every transaction of the program. `Err(description)` otherwise.
+pub fn entry_points_agree(src: &str, tx_first: bool) -> Result<(), String> {
+    let Ok(mut ast) = pipeline::parse(src) else { return Ok(()) };
+    match pipeline::analyze(&mut ast) {
+        Ok(rep) if rep.errors.is_empty() => {}
+        _ => return Ok(()),
+    }
+    for tx in ast.txs.iter() {
+        let by_name = || crate::util::guard(|| tx3_lang::lowering::lower(&ast, &tx.name.value)).ok().and_then(|r| r.ok()).map(|t| tx3_tir::encoding::to_bytes(&t).0);
+        let by_tx = || crate::util::guard(|| tx3_lang::lowering::lower_tx(tx)).ok().and_then(|r| r.ok()).map(|t| tx3_tir::encoding::to_bytes(&t).0);
+        let results: Vec<(&str, Option<Vec<u8>>)> = if tx_first {
+            vec![("lower_tx", by_tx()), ("lower_tx again", by_tx()), ("lower", by_name()), ("lower_tx once more", by_tx())]
+        } else {
+            vec![("lower", by_name()), ("lower_tx", by_tx()), ("lower_tx again", by_tx()), ("lower again", by_name())]
+        };
+        for w in results.windows(2) {
+            if w[0].1 != w[1].1 {
+                return Err(format!("tx {}: {} and {} give different encodings ({} vs {} bytes)", tx.name.value, w[0].0, w[1].0, w[0].1.as_ref().map(|b| b.len()).unwrap_or(0), w[1].1.as_ref().map(|b| b.len()).unwrap_or(0)));
+            }
+        }
+    }
+    Ok(())
+}
+
 pub fn run_tx3c(src: &str) -> Result<Vec<u8>, String> {
     run_tx3c_with(src, &[], &[])
 }
@@ -261,6 +286,11 @@ pub fn check_case(tape: &[u16], rc: &mut RCase, with_processes: bool) -> Result<
     let case = Gen::new(&mut t, feat).generate();
     let (plain, _) = super::render_pair(&case, &mut t);
     let judged = judge(&plain, "generated program", with_processes, rc)?;
+    if !with_processes {
+        if let Err(why) = entry_points_agree(&plain, t.flag()) {
+            return Err(Failure::new("lowering_entry_points_disagree", why, json!({"source": plain})));
+        }
+    }
     let directive = case.features.contains("withdrawal") || case.features.contains("plutus_witness");
     rc.record(hash64(&plain), judged && (directive || case.prog.txs.len() >= 2), || json!({"source": plain}));
     Ok(())
